@@ -155,6 +155,8 @@ type syncInput struct {
 	Fault string           `json:"fault,omitempty"`    // the injected fault, in words
 	RemoteRemoved bool     `json:"remoteRemoved,omitempty"` // `wrgl remote remove origin` ran before the push to the second remote
 	SecondRemote bool      `json:"secondRemote,omitempty"`  // the push goes to a second remote (observed as "remote")
+	Shape string           `json:"shape,omitempty"`         // known-blocks: how the table of the derived commit relates to a table the receiver may hold
+	AllBlocksKnown bool    `json:"allBlocksKnown,omitempty"` // known-blocks: every block of the derived table is a block of an earlier table of the history
 	LocalBefore  *syncRepoState `json:"localBefore"`
 	RemoteBefore *syncRepoState `json:"remoteBefore"`
 }
@@ -180,6 +182,16 @@ type syncResult struct {
 	RepeatTransferred int `json:"repeatPackfiles"`
 	RoundTrips int `json:"roundTrips"`
 	Packfiles  int `json:"packfiles"`
+	// what the command asked the remote for during the first run: listings of the remote's refs, and
+	// every ref update a push requested (ref, old and new commit id; 0 = absent)
+	RefListings  int           `json:"refListings"`
+	PushRequests []syncPushReq `json:"pushRequests"`
+}
+
+type syncPushReq struct {
+	Ref string `json:"ref"`
+	Old int    `json:"old"`
+	New int    `json:"new"`
 }
 
 func writeCSV(dir, name string, t *TableSpec) string {
@@ -579,6 +591,7 @@ func (s *syncRun) do(args []string) Res {
 	}
 	in.RemoteBefore = observeRepo(n, s.rdb, s.rrs)
 	s.srv.UploadRoundTrips, s.srv.Packfiles = 0, 0
+	s.srv.RefsListings, s.srv.UpdateRequests = 0, nil
 	cwd, _ := os.Getwd()
 	os.Chdir(s.root) // merge writes CONFLICTS_*.csv into the working directory
 	defer os.Chdir(cwd)
@@ -595,6 +608,12 @@ func (s *syncRun) do(args []string) Res {
 	if s.fired != nil {
 		result.FaultFired = s.fired()
 	}
+	result.RefListings = s.srv.RefsListings
+	result.PushRequests = []syncPushReq{}
+	for _, q := range s.srv.UpdateRequests {
+		result.PushRequests = append(result.PushRequests, syncPushReq{Ref: strings.TrimPrefix(q.Ref, "refs/"), Old: n.id(q.Old), New: n.id(q.New)})
+	}
+	sort.Slice(result.PushRequests, func(i, j int) bool { return result.PushRequests[i].Ref < result.PushRequests[j].Ref })
 	if err != nil {
 		result.Output += " ERR: " + err.Error()
 	}
@@ -641,7 +660,19 @@ var syncVariants = map[string][]string{
 
 var syncVariantGens = map[string]func(e *syncEnv) Res{}
 
+// c09Variants2: further kinds, on their own case indices (so that the kinds above keep theirs)
+var c09Variants2 = map[string][]string{
+	// data shapes of the transferred tables / refspecs whose destinations coincide / a stream that dies between two objects
+	"C09": {"known-blocks", "colliding-dsts", "boundary-cut"},
+	// the listing of the remote's refs fails before a push (which retries) or a fetch
+	"C10": {"listing-fault", ""},
+}
+
 func init() {
+	syncVariantGens["known-blocks"] = c09GenKnownBlocks
+	syncVariantGens["colliding-dsts"] = c09GenCollidingDsts
+	syncVariantGens["boundary-cut"] = c09GenBoundaryCut
+	syncVariantGens["listing-fault"] = c10GenListingFault
 	syncVariantGens["multi-depth"] = genMultiDepth
 	syncVariantGens["sender-fault"] = genSenderFault
 	syncVariantGens["second-remote"] = genSecondRemote
@@ -1332,11 +1363,444 @@ func genFFConfig(e *syncEnv) Res {
 	return e.run().do(args)
 }
 
+
+// ---- kinds of the second list -------------------------------------------------------------------
+
+// --- known-blocks: a commit whose table brings no block that is new to the receiver ----------------
+//
+// The history holds a table of 2..3 blocks (256..655 rows) and, after it, a commit whose table is
+// made of some of those very blocks (its first k blocks: the trailing rows were deleted; its last
+// blocks: the leading 255*k rows were deleted), has no rows at all (header only), or - one row less
+// than a full block - shares no block. The receiver (the local repository on fetch, the remote on
+// push) may or may not already hold the big table. Whatever the blocks, the TABLE object of every
+// transferred commit has to arrive.
+func c09GenKnownBlocks(e *syncEnv) Res {
+	r, in := e.r, e.in
+	slot := in.Slot
+	in.Shape = []string{"block-prefix", "header-only", "block-suffix", "prefix-less-one-row"}[slot%4]
+	push := ((slot/4)+slot)%2 == 1
+	if res := e.serve(e.sdb); res != nil {
+		return res
+	}
+	defer e.srv.Close()
+	for i := r.Intn(2); i > 0; i-- {
+		if err := e.commit("main", "base"); err != nil {
+			return Err("server-commit")
+		}
+	}
+	e.uniq++
+	big := GenTable(r, 2, 256+r.Intn(400), []int{0}, 0)
+	for _, row := range big.Rows {
+		row[1] = fmt.Sprintf("big-%d", e.uniq)
+	}
+	if err := opCommit(big.CSV(0), big.PK, 1, "main")(e.sdb, e.srs); err != nil {
+		return Err("server-commit-big")
+	}
+	cloned := push || r.Intn(2) == 0
+	if cloned {
+		if res := e.cli("pull", "main", "origin", "refs/heads/main:refs/remotes/origin/main", "--set-upstream"); res != nil {
+			return res
+		}
+	}
+	// the derived table, from the blocks as stored
+	h, _ := ref.GetHead(e.srs, "main")
+	hc, err := objects.GetCommit(e.sdb, h)
+	if err != nil {
+		return Err("server-head")
+	}
+	tbl, err := objects.GetTable(e.sdb, hc.Table)
+	if err != nil || len(tbl.Blocks) < 2 {
+		return Err("server-table")
+	}
+	nb := len(tbl.Blocks)
+	var picks [][]byte
+	drop := 0
+	switch in.Shape {
+	case "block-prefix":
+		picks = tbl.Blocks[:1+r.Intn(nb-1)]
+	case "block-suffix":
+		picks = tbl.Blocks[1+r.Intn(nb-1):]
+	case "prefix-less-one-row":
+		picks = tbl.Blocks[:1]
+		drop = 1
+	}
+	derived := &TableSpec{Columns: tbl.Columns, PK: big.PK}
+	for _, b := range picks {
+		rows, _, err := objects.GetBlock(e.sdb, nil, b)
+		if err != nil {
+			return Err("server-block")
+		}
+		derived.Rows = append(derived.Rows, rows...)
+	}
+	derived.Rows = derived.Rows[:len(derived.Rows)-drop]
+	known := map[string]bool{}
+	for _, b := range tbl.Blocks {
+		known[string(b)] = true
+	}
+	var derivedSum []byte
+	if !push {
+		in.Action, in.Relation = "fetch", "remote-ahead"
+		if err := opCommit(derived.CSV(0), derived.PK, 1, "main")(e.sdb, e.srs); err != nil {
+			return Err("server-commit-derived")
+		}
+		dh, _ := ref.GetHead(e.srs, "main")
+		if dc, err := objects.GetCommit(e.sdb, dh); err == nil {
+			derivedSum = dc.Table
+		}
+		if dt, err := objects.GetTable(e.sdb, derivedSum); err == nil {
+			in.AllBlocksKnown = true
+			for _, b := range dt.Blocks {
+				in.AllBlocksKnown = in.AllBlocksKnown && known[string(b)]
+			}
+		}
+		if r.Intn(2) == 0 {
+			if err := e.commit("main", "after"); err != nil {
+				return Err("server-commit-after")
+			}
+		}
+		in.RefspecForce = true
+		return e.run().do([]string{"fetch", "origin", "+refs/heads/*:refs/remotes/origin/*"})
+	}
+	in.Action, in.Relation = "push", "local-ahead"
+	e.uniq++
+	fp := writeCSV(e.root, fmt.Sprintf("l%d.csv", e.uniq), derived)
+	if res := e.cli("commit", "main", fp, "derived", "-p", derived.PK[0], "-n", "1"); res != nil {
+		return res
+	}
+	if rd, err := local.NewRepoDir(e.dir, ""); err == nil {
+		if ldb, err := rd.OpenObjectsStore(); err == nil {
+			lh, _ := ref.GetHead(rd.OpenRefStore(), "main")
+			if lc, err := objects.GetCommit(ldb, lh); err == nil {
+				if dt, err := objects.GetTable(ldb, lc.Table); err == nil {
+					in.AllBlocksKnown = true
+					for _, b := range dt.Blocks {
+						in.AllBlocksKnown = in.AllBlocksKnown && known[string(b)]
+					}
+				}
+			}
+			ldb.Close()
+		}
+		rd.Close()
+	}
+	if r.Intn(2) == 0 {
+		if res := e.localCommit("after"); res != nil {
+			return res
+		}
+	}
+	return e.run().do([]string{"push", "origin", "refs/heads/main:refs/heads/main", "--no-progress"})
+}
+
+// --- colliding-dsts: refspecs that map DIFFERENT remote refs onto one local destination -------------
+//
+// The remote has a branch and a tag of the same short name on histories of their own (the tagged one
+// reachable through the tag only), and main. The fetch maps two different remote refs onto one
+// destination: two globs into one namespace (heads/* and tags/* into refs/mirror/*), or two explicit
+// refspecs with the same right-hand side. Whichever source the destination ends up with, it was
+// created by a successful fetch and so its whole history has to be there.
+func c09GenCollidingDsts(e *syncEnv) Res {
+	r, in := e.r, e.in
+	slot := in.Slot
+	in.Action, in.Relation = "fetch", "remote-ahead"
+	if res := e.serve(e.sdb); res != nil {
+		return res
+	}
+	defer e.srv.Close()
+	for i := 1 + r.Intn(2); i > 0; i-- {
+		if err := e.commit("main", "base"); err != nil {
+			return Err("server-commit")
+		}
+	}
+	if r.Intn(2) == 0 {
+		if res := e.cli("pull", "main", "origin", "refs/heads/main:refs/remotes/origin/main", "--set-upstream"); res != nil {
+			return res
+		}
+	}
+	fork, _ := ref.GetHead(e.srs, "main")
+	for _, b := range []string{"rel", "scratch"} {
+		if err := e.point(b, fork); err != nil {
+			return Err("server-branch")
+		}
+		for i := 1 + r.Intn(2); i > 0; i-- {
+			if err := e.commit(b, b); err != nil {
+				return Err("server-commit-branch")
+			}
+		}
+	}
+	th, _ := ref.GetHead(e.srs, "scratch")
+	if err := ref.SaveTag(e.srs, "rel", th); err != nil {
+		return Err("server-tag")
+	}
+	if err := ref.DeleteHead(e.srs, "scratch"); err != nil {
+		return Err("server-delete-branch")
+	}
+	form := slot % 3
+	if form == 2 || r.Intn(2) == 0 {
+		if err := e.commit("main", "ahead"); err != nil {
+			return Err("server-commit-ahead")
+		}
+	}
+	specs := [][2]string{{"heads/*", "mirror/*"}, {"tags/*", "mirror/*"}}
+	switch form {
+	case 1:
+		specs = [][2]string{{"heads/rel", "mirror/x"}, {"tags/rel", "mirror/x"}}
+	case 2:
+		specs = [][2]string{{"heads/rel", "mirror/x"}, {"heads/main", "mirror/x"}}
+	}
+	if (slot/3)%2 == 1 {
+		specs[0], specs[1] = specs[1], specs[0]
+	}
+	force := (slot/6)%2 == 0
+	args := []string{"fetch", "origin"}
+	for _, s := range specs {
+		a := "refs/" + s[0] + ":refs/" + s[1]
+		if force {
+			a = "+" + a
+		}
+		args = append(args, a)
+		for _, name := range []string{"heads/main", "heads/rel", "tags/rel"} {
+			if strings.HasSuffix(s[0], "*") {
+				p := strings.TrimSuffix(s[0], "*")
+				if strings.HasPrefix(name, p) {
+					in.SpecMap = append(in.SpecMap, syncSpecMap{Src: name, Dst: strings.TrimSuffix(s[1], "*") + strings.TrimPrefix(name, p), Force: force})
+				}
+			} else if s[0] == name {
+				in.SpecMap = append(in.SpecMap, syncSpecMap{Src: name, Dst: s[1], Force: force})
+			}
+		}
+	}
+	return e.run().do(args)
+}
+
+// --- boundary-cut: a packfile response that ends exactly between two of its objects -----------------
+//
+// The connection carrying a packfile dies on an object boundary: the client sees the objects before
+// the cut complete and then the error of a body shorter than announced (io.ErrUnexpectedEOF), or an
+// HTTP/2 stream reset. The maximum packfile size of the remote is chosen relative to the objects of
+// the first commit it will send, so that a packfile ends right after that commit's table, right
+// after the commit itself, or anywhere; the cut falls before the last object of a packfile or after
+// its first. A fetch that reports success after such a cut must still have everything.
+type c09CutSpec struct {
+	pack  int   // the pack-th packfile response that holds at least two objects is the one cut
+	where int   // 0: before its last object; 1: after its first object
+	err   error // what the client's read returns at the cut
+	seen  int
+	fired bool
+}
+
+// c09PackBoundaries gives the offsets at which the objects of a packfile end (format: 8 bytes of
+// header, then per object a type-and-length prefix of at least two bytes - 4 bits of length in the
+// first, 7 in each further one, the last with its high bit clear - and the content).
+func c09PackBoundaries(b []byte) []int {
+	var ends []int
+	off := 8
+	for off < len(b) {
+		u := uint64(b[off] & 15)
+		off++
+		bits := uint(4)
+		for {
+			if off >= len(b) {
+				return ends
+			}
+			c := b[off]
+			off++
+			u |= uint64(c&127) << bits
+			bits += 7
+			if c&128 == 0 {
+				break
+			}
+		}
+		if uint64(len(b)-off) < u {
+			return ends
+		}
+		off += int(u)
+		ends = append(ends, off)
+	}
+	return ends
+}
+
+func c09SetBoundaryCut(spec *c09CutSpec) {
+	setStreamResets(0)
+	theResetTransport.mu.Lock()
+	theResetTransport.spec = spec
+	theResetTransport.mu.Unlock()
+}
+
+func c09GenBoundaryCut(e *syncEnv) Res {
+	r, in := e.r, e.in
+	slot := in.Slot
+	in.Action, in.Relation = "fetch", "remote-ahead"
+	if res := e.serve(e.sdb); res != nil {
+		return res
+	}
+	defer e.srv.Close()
+	for i := 1 + r.Intn(2); i > 0; i-- {
+		if err := e.commit("main", "base"); err != nil {
+			return Err("server-commit")
+		}
+	}
+	cloned := slot%4 != 3
+	if cloned {
+		if res := e.cli("pull", "main", "origin", "refs/heads/main:refs/remotes/origin/main", "--set-upstream"); res != nil {
+			return res
+		}
+	}
+	ahead := 1 + r.Intn(3)
+	for i := 0; i < ahead; i++ {
+		if err := e.commit("main", "remote"); err != nil {
+			return Err("server-commit2")
+		}
+	}
+	// the first commit the remote will send, and the sizes of its objects
+	tip, _ := ref.GetHead(e.srs, "main")
+	first := ancestorOf(e.sdb, tip, ahead-1)
+	if !cloned {
+		first = ancestorOf(e.sdb, tip, 1<<20)
+	}
+	fc, err := objects.GetCommit(e.sdb, first)
+	if err != nil {
+		return Err("server-first")
+	}
+	ft, err := objects.GetTable(e.sdb, fc.Table)
+	if err != nil {
+		return Err("server-first-table")
+	}
+	blocks := uint64(0)
+	for _, b := range ft.Blocks {
+		bb, err := objects.GetBlockBytes(e.sdb, b)
+		if err != nil {
+			return Err("server-first-block")
+		}
+		blocks += uint64(len(bb)) + 4
+	}
+	tb, _ := e.sdb.Get(append([]byte("tbl/"), fc.Table...))
+	switch slot % 3 {
+	case 0: // more than the blocks, less than blocks + table: the packfile ends with the table
+		in.MaxPack = blocks + 1
+	case 1: // more than blocks + table: the packfile ends with the commit
+		in.MaxPack = blocks + uint64(len(tb)) + 8
+	default:
+		in.MaxPack = []uint64{300, 700, 5000}[r.Intn(3)]
+	}
+	e.srv.maxPackfileSize = in.MaxPack
+	spec := &c09CutSpec{pack: 1 + (slot/6)%2, where: (slot / 3) % 2, err: io.ErrUnexpectedEOF}
+	what := "unexpected EOF (the body is shorter than announced)"
+	if slot%5 == 4 {
+		spec.err = fmt.Errorf("stream error: stream ID 7; INTERNAL_ERROR; received from peer")
+		what = "an HTTP/2 stream reset"
+	}
+	in.Fault = fmt.Sprintf("packfile response number %d with two or more objects ends %s with %s",
+		spec.pack, []string{"before its last object", "after its first object"}[spec.where], what)
+	run := e.run()
+	run.arm = func() { c09SetBoundaryCut(spec) }
+	run.disarm = func() { c09SetBoundaryCut(nil) }
+	run.fired = func() bool { return spec.fired }
+	in.RefspecForce = true
+	return run.do([]string{"fetch", "origin", "+refs/heads/*:refs/remotes/origin/*"})
+}
+
+// --- listing-fault: the listing of the remote's refs fails before the command gets going -----------
+//
+// The first one or two GET /refs/ of the command are answered with a 5xx. `wrgl push` retries (with
+// the same client map), `wrgl fetch` gives up. The branch relation is diverged / local-ahead /
+// unrelated / remote-ahead / equal, a tag may be pushed along (new on the remote, or clobbering the
+// remote's). Whatever happened to the listing, the push may only ask the remote for the updates its
+// own gate accepts against the remote's TRUE refs, naming the true old values.
+func c10GenListingFault(e *syncEnv) Res {
+	r, in := e.r, e.in
+	slot := in.Slot
+	if res := e.serve(e.sdb); res != nil {
+		return res
+	}
+	defer e.srv.Close()
+	for i := 1 + r.Intn(2); i > 0; i-- {
+		if err := e.commit("main", "base"); err != nil {
+			return Err("server-commit")
+		}
+	}
+	if res := e.cli("pull", "main", "origin", "refs/heads/main:refs/remotes/origin/main", "--set-upstream"); res != nil {
+		return res
+	}
+	in.Action = "push"
+	if slot%5 == 4 {
+		in.Action = "fetch"
+	}
+	in.Relation = []string{"diverged", "local-ahead", "unrelated", "diverged", "remote-ahead", "equal"}[slot%6]
+	root := ancestorOf(e.sdb, func() []byte { h, _ := ref.GetHead(e.srs, "main"); return h }(), 1<<20)
+	switch in.Relation {
+	case "diverged", "remote-ahead":
+		for i := 1 + r.Intn(2); i > 0; i-- {
+			if err := e.commit("main", "remote"); err != nil {
+				return Err("server-commit2")
+			}
+		}
+	case "unrelated":
+		e.srs.Delete("heads/main")
+		if err := e.commit("main", "other"); err != nil {
+			return Err("server-commit-other")
+		}
+	}
+	if in.Relation == "diverged" || in.Relation == "local-ahead" || (in.Relation == "unrelated" && r.Intn(2) == 0) {
+		for i := 1 + r.Intn(2); i > 0; i-- {
+			if res := e.localCommit("local"); res != nil {
+				return res
+			}
+		}
+	}
+	in.Force = r.Intn(4) == 0
+	var args []string
+	if in.Action == "push" {
+		args = []string{"push", "origin", "refs/heads/main:refs/heads/main"}
+		if tagMode := r.Intn(3); tagMode > 0 {
+			// a tag on the local head is pushed along; the remote has none of that name, or its own
+			rd, err := local.NewRepoDir(e.dir, "")
+			if err != nil {
+				return Err("repodir2")
+			}
+			lrs := rd.OpenRefStore()
+			lh, _ := ref.GetHead(lrs, "main")
+			err = ref.SaveTag(lrs, "v1", lh)
+			rd.Close()
+			if err != nil {
+				return Err("local-tag")
+			}
+			if tagMode == 2 {
+				if err := ref.SaveTag(e.srs, "v1", root); err != nil {
+					return Err("server-tag")
+				}
+			}
+			args = append(args, "refs/tags/v1:refs/tags/v1")
+		}
+		args = append(args, "--no-progress")
+	} else {
+		in.RefspecForce = r.Intn(2) == 0
+		spec := "refs/heads/*:refs/remotes/origin/*"
+		if in.RefspecForce {
+			spec = "+" + spec
+		}
+		args = []string{"fetch", "origin", spec}
+	}
+	if in.Force {
+		args = append(args, "--force")
+	}
+	k := 1 + (slot/2)%2
+	status := []int{503, 500, 502}[slot%3]
+	in.Fault = fmt.Sprintf("the first %d listings of the remote's refs are answered with HTTP %d", k, status)
+	run := e.run()
+	srv := e.srv
+	run.arm = func() { srv.mu.Lock(); srv.FailRefs, srv.FailRefsStatus = k, status; srv.mu.Unlock() }
+	run.disarm = func() { srv.mu.Lock(); srv.FailRefs = 0; srv.mu.Unlock() }
+	run.fired = func() bool { return srv.RefsListings > 0 }
+	return run.do(args)
+}
+
 func emitSync(ctx *Ctx, in *syncInput, res Res, tags ...string) {
 	nt := in.Relation == "diverged" || in.Relation == "unrelated" || in.Relation == "remote-ahead" || in.Variant != ""
 	ts := append(tags, "action="+in.Action, "relation="+in.Relation)
 	if in.Variant != "" {
 		ts = append(ts, "variant="+in.Variant)
+	}
+	if in.Shape != "" {
+		ts = append(ts, "shape="+in.Shape)
 	}
 	ctx.Emit("sync", in, res, nt, ts...)
 }
@@ -1349,6 +1813,14 @@ func runSync(ctx *Ctx) {
 		k := ctx.Idx / 4
 		in, res := runSyncVariant(seed, vs[k%len(vs)], k/len(vs))
 		emitSync(ctx, in, res)
+	}
+	// the kinds of the second list take the case indices 1, 5, 9, ... ("" = no further case)
+	if vs := c09Variants2[ctx.Prop]; len(vs) > 0 && ctx.Idx%4 == 1 {
+		k := ctx.Idx / 4
+		if v := vs[k%len(vs)]; v != "" {
+			in, res := runSyncVariant(seed, v, k/len(vs))
+			emitSync(ctx, in, res)
+		}
 	}
 }
 
@@ -1397,6 +1869,7 @@ type resetTransport struct {
 	mu   sync.Mutex
 	left int
 	cut  int
+	spec *c09CutSpec // a cut on an object boundary (see boundary-cut)
 }
 
 func (t *resetTransport) RoundTrip(req *http.Request) (*http.Response, error) {
@@ -1416,6 +1889,24 @@ func (t *resetTransport) RoundTrip(req *http.Request) (*http.Response, error) {
 		}
 		resp.Body = &cutBody{r: io.NopCloser(bytes.NewReader(b)), left: len(b) / 2,
 			err: fmt.Errorf("stream error: stream ID %d; INTERNAL_ERROR; received from peer", 2*t.cut+1)}
+	} else if sp := t.spec; sp != nil && !sp.fired && resp.Header.Get("Content-Type") == "application/x-wrgl-packfile" {
+		b, err := io.ReadAll(resp.Body)
+		resp.Body.Close()
+		if err != nil {
+			return nil, err
+		}
+		resp.Body = io.NopCloser(bytes.NewReader(b))
+		if ends := c09PackBoundaries(b); len(ends) >= 2 {
+			sp.seen++
+			if sp.seen == sp.pack {
+				at := ends[len(ends)-2]
+				if sp.where == 1 {
+					at = ends[0]
+				}
+				sp.fired = true
+				resp.Body = &cutBody{r: io.NopCloser(bytes.NewReader(b)), left: at, err: sp.err}
+			}
+		}
 	}
 	return resp, nil
 }
